@@ -22,6 +22,7 @@ TrCalls == 1..MaxCallId
 TrPings == {c \in TrCalls : c % 4 = 3}
 TrFail  == {c \in TrCalls : c % 4 = 2}
 TrCtx   == {c \in TrCalls : c % 4 = 0}
+TrNoMethod == {c \in TrCalls : c % 8 = 6}
 
 tvars == <<vars, l, obsbad>>
 
@@ -146,7 +147,13 @@ TrSrvRecv == IsEv("v.recv") /\ SrvRecv /\ Adv
 TrSrvDecode ==
     /\ IsEv("v.dispatch")
     /\ sdq # <<>> /\ Head(sdq).seq = E.seq
-    /\ \E d1 \in BOOLEAN : SrvDecode(d1, E.a >= 2)
+    /\ \E d1 \in BOOLEAN : SrvDecode(d1, E.a >= 2, E.b = 1)     \* b = 1: answered without ever reaching handleRequest (look-ahead by the harness)
+    /\ Adv
+
+\* handleRequest of a request for a method the server does not have
+TrLookupFail ==
+    /\ IsEv("v.handle")
+    /\ \E c \in NoMethodCalls : seqof[c] = E.seq /\ (\E d \in BOOLEAN : SrvLookupFail(c, d))
     /\ Adv
 
 TrSrvDrop == IsEv("v.drop") /\ SrvDrop /\ Adv
@@ -205,7 +212,7 @@ TrNext ==
     \/ TrRecv \/ TrDispatch \/ TrDropShutdown \/ TrBadFrame \/ TrFinish \/ TrEofSweep
     \/ TrClose1 \/ TrCloseDup \/ TrSockClose \/ TrClose2 \/ TrCtxRet
     \/ TrCut \/ TrDup \/ TrUnk
-    \/ TrSrvRecv \/ TrSrvDecode \/ TrSrvDrop \/ TrExecBegin \/ TrExecEnd \/ TrWriteS2C \/ TrSrvEOF
+    \/ TrSrvRecv \/ TrSrvDecode \/ TrLookupFail \/ TrSrvDrop \/ TrExecBegin \/ TrExecEnd \/ TrWriteS2C \/ TrSrvEOF
     \/ TrObsClosing \/ TrObsFinal \/ TrObsEnd
 
 TrSpec == TrInit /\ [][TrNext]_tvars
